@@ -59,3 +59,8 @@ def run(check: Check, repo: Repo, tier: str) -> None:
                                                            "validation.rules.variables_in_allowed_position")])
     check.floor("SENTINEL-IDENTITY", 15, "comparisons against Undefined")
     check.floor("KIND-TABLE", 2, "kind-dispatch functions folded into decision tables")
+    from rules import schema_rules as S2
+    wmods = [m for m in repo.package_modules("validation") if ".custom" not in m.name] + repo.package_modules("execution") + [
+        repo.mod(x) for x in ("utilities.coerce_input_value", "utilities.validate_input_value", "utilities.value_from_ast",
+                              "utilities.ast_from_value", "utilities.value_to_literal", "type.validate")]
+    S2.wrapped_kind_test(check, repo, wmods)
